@@ -194,4 +194,67 @@ inductive SysReachable (cfgs : List Cfg) : Sys → Prop
   | init : SysReachable cfgs (cfgs.map (fun c => (c, State.init)))
   | step {σ σ' : Sys} (p : Nat) (a : Action) : SysReachable cfgs σ → sysStep σ p a = some σ' → SysReachable cfgs σ'
 
+/-! ### The transform stage in front of the queue (`transform_and_write_value`)
+
+A call of the public `transform_and_write_value` first evaluates the port's write transform — which suspends the
+caller for a number of loop iterations that depends on the value (function arguments are gathered, `IF` is lazy) — and
+only then queues the value (`submit`). Repaired code (fixes/C14-submit-order-lock.diff, `fair = true`): the transform
+and the enqueue happen inside `async with self._submit_lock`, an asyncio.Lock hands over in FIFO order, so the callers
+leave the stage in call order (`pass`). Code before that fix (`fair = false`): any caller whose evaluation happens to
+finish first is queued first (`jump i`). A caller whose transform cannot be evaluated leaves without queueing
+(`pass false`). -/
+
+structure Call where
+  id  : Nat
+  val : Int          -- the value that will be queued (after the transform)
+  deriving DecidableEq, Repr
+
+structure TState where
+  stage   : List Call := []             -- callers holding or waiting for the submit lock, in call order
+  port    : State := {}
+  nextId  : Nat := 0
+  entered : List Call := []             -- ghost: every call, in call order
+  passed  : List (Call × Bool) := []    -- ghost: calls that left the stage, in that order, with "value was queued"
+  deriving Repr
+
+inductive TAction
+  | enter (v : Int)
+  | pass (ok : Bool)
+  | jump (i : Nat)
+  | port (a : Action)
+  deriving DecidableEq, Repr
+
+def tstep (fair : Bool) (c : Cfg) (t : TState) : TAction → Option TState
+  | .enter v =>
+    let k : Call := ⟨t.nextId, v⟩
+    some { t with stage := t.stage ++ [k], nextId := t.nextId + 1, entered := t.entered ++ [k] }
+  | .pass ok =>
+    match t.stage with
+    | [] => none
+    | k :: rest =>
+      if ok then
+        (step c t.port (.submit k.val)).map fun p => { t with stage := rest, port := p, passed := t.passed ++ [(k, true)] }
+      else some { t with stage := rest, passed := t.passed ++ [(k, false)] }
+  | .jump i =>
+    if fair then none else
+    match t.stage[i]? with
+    | none => none
+    | some k =>
+      (step c t.port (.submit k.val)).map fun p =>
+        { t with stage := t.stage.eraseIdx i, port := p, passed := t.passed ++ [(k, true)] }
+  | .port a =>
+    match a with
+    | .submit _ => none                  -- values reach the queue only through the stage
+    | a => (step c t.port a).map fun p => { t with port := p }
+
+def texec (fair : Bool) (c : Cfg) : TState → List TAction → Option TState
+  | t, [] => some t
+  | t, a :: as => match tstep fair c t a with
+    | some t' => texec fair c t' as
+    | none => none
+
+inductive TReachable (fair : Bool) (c : Cfg) : TState → Prop
+  | init : TReachable fair c {}
+  | step {t t' : TState} (a : TAction) : TReachable fair c t → tstep fair c t a = some t' → TReachable fair c t'
+
 end QtVerif.PortIO
